@@ -197,6 +197,16 @@ def run(ctx):
                 ctx.ob("R2.terminal-before-wake", name, ok, b.loc(t["span"]),
                        f"stores dominating the wake: {[o['val'] for o in sets]}; stores after it: {[o['val'] for o in later]}")
 
+        # the registered waker, once taken out of the awaiter cell, IS woken: on every normal path from the read to the return
+        # (a waker dropped unwoken leaves the task that registered it pending for ever - the value sits in the event)
+        reads = [bb for bb, t in b.calls() if t["callee"].get("method") in ("assume_init_read", "read", "assume_init") and not b.blocks[bb].cleanup and t["args"]
+                 and any(f.endswith("LocalEvent::awaiter") for f in Slice(b).run(t["args"][0])["fields"])]
+        wakes = [bb for bb, t in b.calls() if callee_paths(t["callee"]) & WAKER_FNS and not b.blocks[bb].cleanup]
+        for rb in reads:
+            okp, _off = b.must_pass(b.term_succ(rb, False), wakes, b.exits(("return",)))
+            ctx.ob("R2.terminal-before-wake", f"{name}.taken-waker-is-woken", okp, b.loc(b.blocks[rb].term["span"]),
+                   f"every normal path from taking the registered waker to the return invokes it: {okp}")
+
     # ---------------- R9
     for name in ("set", "sender_dropped_without_set", "final_poll"):
         b = fn.get(name)
